@@ -87,7 +87,12 @@ fn streaming_encoder(n: usize, len: usize, method: &str, drain: &str, density: u
 /// Decoder fed the wire form of a > 1 MiB constant payload in one call.
 fn big_decoder(len: usize, method: &str, drain: bool) -> Vec<String> {
     let mut ops: Vec<String> = vec!["terse".into(), "dec_new prod".into()];
-    ops.push(format!("feed {} {}", method, const_wire(0x61, len)));
+    // the first header byte goes in by itself and is NOT followed by `drain_all`: a single call of several
+    // megabytes is outside the streaming regime whose footprint bound the wrapped executor checks
+    let wire = const_wire(0x61, len);
+    let (head, rest) = wire.split_once('+').unwrap_or((&wire, "-"));
+    ops.push(format!("feed c {}+-", head));
+    ops.push(format!("feed {} {}", method, rest));
     if drain {
         ops.push("drain_bytes 1000".into());
     }
